@@ -26,7 +26,7 @@ ASSUMPTIONS = ["simulated schedulers (simbin) stand in for Slurm/SGE/LSF", "spec
 
 
 QUICK_BUDGET = {"cases": 1260, "deadline_s": 170, "case_timeout_s": 90, "floors": {"runs": 633, "submissions": 1200, "prereq_sets": 1200, "user_cancels": 120, "wide_cases": 1}}
-THOROUGH_FACTOR = 15  # thorough = the same workload with 15x the cases (floors scale along)
+THOROUGH_FACTOR = 10  # thorough = the same workload with 10x the cases (floors scale along)
 
 
 def budget(tier):
